@@ -12,6 +12,8 @@ TReset == IsEv("reset")
 TCall == IsEv("call") /\ Call(Rec.thread, Rec.op)
 TRet == IsEv("ret") /\ Ret(Rec.thread, Rec.res)
 TPeerGone == IsEv("peergone") /\ PeerGone
+\* from here on the connection has to be torn down by whatever ends it: like the peer going away
+TCtxCancel == IsEv("ctxcancel") /\ PeerGone
 TTeardown == IsEv("teardown") /\ Teardown
 TInject == IsEv("inject") /\ Inject(Rec.n)
 THandled == IsEv("handled") /\ Handled(Rec.n)
@@ -22,7 +24,7 @@ TEnd == IsEv("end") /\ End
 TChildExit == IsEv("childexit") /\ Rec.code = 0 /\ UNCHANGED hvars
 \* "died", "stalled", "hung" are never accepted
 
-TNext == TReset \/ TCall \/ TRet \/ TPeerGone \/ TTeardown \/ TInject \/ THandled
+TNext == TReset \/ TCall \/ TRet \/ TPeerGone \/ TCtxCancel \/ TTeardown \/ TInject \/ THandled
          \/ TQuiet \/ TSettled \/ TEnd \/ TChildExit
 TSpec == TInit /\ [][TNext]_tvars
 =============================================================================
